@@ -18,6 +18,18 @@
                              The trace specification reports an engine "allow" that only
                              `Allowed` explains (a non-active role) as its own kind of mismatch.
      SuperAllowsEverything   a holder of the global SUPER privilege passes every check.
+     GlobalAllIsStaticOnly   GRANT ALL ON *.* grants the static global privileges only (comment of
+                             grantAllGlobalPrivileges in sql/plan/grant.go); MySQL's ALL at the
+                             global level also covers the registered dynamic privileges.
+
+   Dynamic privileges (DynPrivs; the engine accepts REPLICATION_SLAVE_ADMIN and CLONE_ADMIN) exist at
+   the global level only.  Each one an account holds carries its OWN grant-option flag (MySQL:
+   mysql.global_grants.WITH_GRANT_OPTION):  dyn[a]  is a set of [p, wgo] with at most one record per
+   name.  GRANT <dyn,..> ON *.* TO a [WITH GRANT OPTION], REVOKE <dyn,..> ON *.* FROM a; REVOKE ALL ON
+   *.* takes them away too; SHOW GRANTS prints them on their own line(s), one line per flag value.
+   Left out of the generated domain (not settled by the manual, not judged): granting a dynamic
+   privilege WITHOUT grant option to an account that holds it WITH grant option, and GRANT / REVOKE
+   naming the static GRANT OPTION at the global level while the account holds dynamic privileges.
 
    act / ret / eff / step are output-only (hidden by View). *)
 EXTENDS Integers, FiniteSets, Sequences, TLC, Json
@@ -27,6 +39,7 @@ CONSTANTS Users,        \* e.g. {"u1", "u2"}
           Dbs,          \* e.g. {"d1", "d2"}
           Tbls,         \* e.g. {"t1", "t2"}
           Privs,        \* the privileges GRANT/REVOKE range over (subset of AllPrivs)
+          DynPrivs,     \* the dynamic privileges GRANT/REVOKE range over (may be {})
           MaxSet,       \* GRANT/REVOKE name 1..MaxSet privileges (or ALL when WithAll)
           WithAll,      \* BOOLEAN: generate GRANT ALL / REVOKE ALL
           MaxStep,      \* history length bound (state constraint)
@@ -56,21 +69,24 @@ AtomsAt(G, o) == {x \in G : x.db = o.db /\ x.tbl = o.tbl}
 
 VARIABLES exists,     \* SUBSET Accts
           grants,     \* [Accts -> SUBSET atoms]
+          dyn,        \* [Accts -> SUBSET [p : DynPrivs, wgo : BOOLEAN]]  dynamic privileges, own flag each
           edges,      \* set of [r, to, adm]: role r granted to account `to` (WITH ADMIN OPTION = adm)
           locked,     \* [Accts -> BOOLEAN]   (CREATE ROLE makes a locked account)
           pw,         \* [Accts -> password label]  "none" | "pw1" | "pw2"
           active,     \* [Users -> "all" | "none"]  the session's active roles (SET ROLE ALL | NONE)
           defrole,    \* [Users -> "all" | "none"]  SET DEFAULT ROLE ALL | NONE
           act, ret, eff, step
-acvars == <<exists, grants, edges, locked, pw, defrole>>     \* the persistent access-control state
-vars == <<exists, grants, edges, locked, pw, active, defrole, act, ret, eff, step>>
+acvars == <<exists, grants, dyn, edges, locked, pw, defrole>>     \* the persistent access-control state
+vars == <<exists, grants, dyn, edges, locked, pw, active, defrole, act, ret, eff, step>>
+stvars == <<exists, grants, dyn, edges, locked, pw, active, defrole>>      \* everything but the outputs
 
-StateRec == [exists |-> exists, grants |-> grants, edges |-> edges, locked |-> locked, pw |-> pw,
+StateRec == [exists |-> exists, grants |-> grants, dyn |-> dyn, edges |-> edges, locked |-> locked, pw |-> pw,
              active |-> active, defrole |-> defrole]
 
 Init ==
     /\ exists = IF InitAll THEN Accts ELSE {}
     /\ grants = [a \in Accts |-> {}]
+    /\ dyn = [a \in Accts |-> {}]
     /\ edges = {}
     /\ locked = [a \in Accts |-> InitAll /\ a \in Roles]
     /\ pw = [a \in Accts |-> "none"]
@@ -85,10 +101,11 @@ Out(a, r) == act' = a /\ ret' = r /\ eff' = "none" /\ step' = step + 1
 CreateUser(u, label) ==
     LET a == [name |-> "CreateUser", a |-> u, pw |-> label] IN
     IF u \in exists
-    THEN Out(a, "error") /\ UNCHANGED <<exists, grants, edges, locked, pw, active, defrole>>
+    THEN Out(a, "error") /\ UNCHANGED stvars
     ELSE /\ Out(a, "ok")
          /\ exists' = exists \cup {u}
          /\ grants' = [grants EXCEPT ![u] = {}]
+         /\ dyn' = [dyn EXCEPT ![u] = {}]
          /\ locked' = [locked EXCEPT ![u] = FALSE]
          /\ pw' = [pw EXCEPT ![u] = label]
          /\ active' = [active EXCEPT ![u] = "all"]
@@ -99,10 +116,11 @@ CreateUser(u, label) ==
 CreateRole(r) ==
     LET a == [name |-> "CreateRole", a |-> r] IN
     IF r \in exists
-    THEN Out(a, "error") /\ UNCHANGED <<exists, grants, edges, locked, pw, active, defrole>>
+    THEN Out(a, "error") /\ UNCHANGED stvars
     ELSE /\ Out(a, "ok")
          /\ exists' = exists \cup {r}
          /\ grants' = [grants EXCEPT ![r] = {}]
+         /\ dyn' = [dyn EXCEPT ![r] = {}]
          /\ locked' = [locked EXCEPT ![r] = TRUE]
          /\ pw' = [pw EXCEPT ![r] = "none"]
          /\ UNCHANGED <<edges, active, defrole>>
@@ -112,10 +130,11 @@ CreateRole(r) ==
 DropAcct(x) ==
     LET a == [name |-> "DropAcct", a |-> x] IN
     IF x \notin exists
-    THEN Out(a, "error") /\ UNCHANGED <<exists, grants, edges, locked, pw, active, defrole>>
+    THEN Out(a, "error") /\ UNCHANGED stvars
     ELSE /\ Out(a, "ok")
          /\ exists' = exists \ {x}
          /\ grants' = [grants EXCEPT ![x] = {}]
+         /\ dyn' = [dyn EXCEPT ![x] = {}]
          /\ edges' = {e \in edges : e.r # x /\ e.to # x}
          /\ locked' = [locked EXCEPT ![x] = FALSE]
          /\ pw' = [pw EXCEPT ![x] = "none"]
@@ -129,27 +148,68 @@ GrantF(G, x, o, ps) == [G EXCEPT ![x] = @ \cup {Atom(o, p) : p \in Expand(o, ps)
 RevokeF(G, x, o, ps) == [G EXCEPT ![x] = @ \ {Atom(o, p) : p \in Expand(o, ps)}]
 Held(x, o, ps) == {p \in Expand(o, ps) : Atom(o, p) \in grants[x]}
 
+\* "GRANT OPTION granted at the global level for any global privilege applies to all global
+\* privileges" (manual, GRANT, Global Privileges); what a GRANT / REVOKE that names the static GRANT
+\* OPTION at the global level does to the flags of the dynamic privileges the account holds is not
+\* settled there: such statements are generated only for accounts without dynamic privileges.
+GrantOptionDefined(x, o, ps) == ~(o = Global /\ "GRANT OPTION" \in ps /\ dyn[x] # {})
 GrantPriv(x, o, ps) ==
     LET a == [name |-> "GrantPriv", a |-> x, db |-> o.db, tbl |-> o.tbl, ps |-> ps] IN
-    IF x \notin exists                      \* MySQL 8: GRANT does not create accounts
-    THEN Out(a, "error") /\ UNCHANGED <<exists, grants, edges, locked, pw, active, defrole>>
-    ELSE /\ Out(a, "ok")
-         /\ grants' = GrantF(grants, x, o, ps)
-         /\ UNCHANGED <<exists, edges, locked, pw, active, defrole>>
+    /\ GrantOptionDefined(x, o, ps)
+    /\ IF x \notin exists                      \* MySQL 8: GRANT does not create accounts
+       THEN Out(a, "error") /\ UNCHANGED stvars
+       ELSE /\ Out(a, "ok")
+            /\ grants' = GrantF(grants, x, o, ps)      \* GlobalAllIsStaticOnly: dyn is not touched by ALL
+            /\ UNCHANGED <<exists, dyn, edges, locked, pw, active, defrole>>
 
 \* When nothing named is held MySQL answers "no such grant" at the database and table level and OK
 \* at the global level; the reply of such a REVOKE is "ok|error" (either), the state is what it was.
 \* REVOKE ALL ON <level> is generated only while GRANT OPTION is not held at that level (whether
 \* ALL covers it there is not something the manual settles; left out, not judged).
-RevokeDefined(x, o, ps) == ps = {"ALL"} => Atom(o, "GRANT OPTION") \notin grants[x]
+\* REVOKE ALL ON *.* takes the dynamic privileges away as well (they are global privileges).
+RevokeDefined(x, o, ps) == /\ ps = {"ALL"} => Atom(o, "GRANT OPTION") \notin grants[x]
+                           /\ GrantOptionDefined(x, o, ps)
 RevokePriv(x, o, ps) ==
-    LET a == [name |-> "RevokePriv", a |-> x, db |-> o.db, tbl |-> o.tbl, ps |-> ps] IN
+    LET a == [name |-> "RevokePriv", a |-> x, db |-> o.db, tbl |-> o.tbl, ps |-> ps]
+        alldyn == o = Global /\ ps = {"ALL"}
+    IN
     /\ RevokeDefined(x, o, ps)
     /\ IF x \notin exists
-       THEN Out(a, "error") /\ UNCHANGED <<exists, grants, edges, locked, pw, active, defrole>>
-       ELSE /\ Out(a, IF Held(x, o, ps) = {} THEN "ok|error" ELSE "ok")
+       THEN Out(a, "error") /\ UNCHANGED stvars
+       ELSE /\ Out(a, IF Held(x, o, ps) = {} /\ ~(alldyn /\ dyn[x] # {}) THEN "ok|error" ELSE "ok")
             /\ grants' = RevokeF(grants, x, o, ps)
+            /\ dyn' = IF alldyn THEN [dyn EXCEPT ![x] = {}] ELSE dyn
             /\ UNCHANGED <<exists, edges, locked, pw, active, defrole>>
+
+\* ---- GRANT / REVOKE of dynamic privileges (global level only) -----------------------------------
+\* ps is a non-empty set of dynamic privilege names; one statement gives all of them the same flag.
+HeldDyn(x) == {d.p : d \in dyn[x]}
+DynGrantF(D, ps, wgo) == {d \in D : d.p \notin ps}
+                         \cup {[p |-> p, wgo |-> wgo \/ \E d \in D : d.p = p /\ d.wgo] : p \in ps}
+DynRevokeF(D, ps) == {d \in D : d.p \notin ps}
+\* GRANT never takes a grant option away in MySQL; go-mysql-server overwrites the flag.  Granting a
+\* held-with-grant-option privilege again without it is not generated (not judged).
+\* (no disjunction here: TLC would enumerate it as two sub-actions)
+DynGrantDefined(x, ps, wgo) == \A d \in dyn[x] : (d.p \in ps /\ d.wgo) => wgo
+\* GRANT <dyn,..> ON *.* TO x [WITH GRANT OPTION].  WITH GRANT OPTION at the global level also is the
+\* static global GRANT OPTION ("applies to all global privileges").
+GrantDyn(x, ps, wgo) ==
+    LET a == [name |-> "GrantDyn", a |-> x, ps |-> ps, wgo |-> wgo] IN
+    /\ DynGrantDefined(x, ps, wgo)
+    /\ IF x \notin exists
+       THEN Out(a, "error") /\ UNCHANGED stvars
+       ELSE /\ Out(a, "ok")
+            /\ dyn' = [dyn EXCEPT ![x] = DynGrantF(@, ps, wgo)]
+            /\ grants' = IF wgo THEN [grants EXCEPT ![x] = @ \cup {Atom(Global, "GRANT OPTION")}] ELSE grants
+            /\ UNCHANGED <<exists, edges, locked, pw, active, defrole>>
+\* REVOKE <dyn,..> ON *.* FROM x  (reply as for a static privilege at the global level)
+RevokeDyn(x, ps) ==
+    LET a == [name |-> "RevokeDyn", a |-> x, ps |-> ps] IN
+    IF x \notin exists
+    THEN Out(a, "error") /\ UNCHANGED stvars
+    ELSE /\ Out(a, IF HeldDyn(x) \cap ps = {} THEN "ok|error" ELSE "ok")
+         /\ dyn' = [dyn EXCEPT ![x] = DynRevokeF(@, ps)]
+         /\ UNCHANGED <<exists, grants, edges, locked, pw, active, defrole>>
 
 \* ---- roles -----------------------------------------------------------------------------------
 EdgesOf(r, u) == {e \in edges : e.r = r /\ e.to = u}
@@ -159,35 +219,35 @@ GrantRole(r, u, adm) ==
     LET a == [name |-> "GrantRole", r |-> r, a |-> u, adm |-> adm] IN
     /\ GrantRoleDefined(r, u, adm)
     /\ IF r \notin exists \/ u \notin exists
-       THEN Out(a, "error") /\ UNCHANGED <<exists, grants, edges, locked, pw, active, defrole>>
+       THEN Out(a, "error") /\ UNCHANGED stvars
        ELSE /\ Out(a, "ok")
             /\ edges' = edges \cup {[r |-> r, to |-> u, adm |-> adm]}
-            /\ UNCHANGED <<exists, grants, locked, pw, active, defrole>>
+            /\ UNCHANGED <<exists, grants, dyn, locked, pw, active, defrole>>
 
 RevokeRole(r, u) ==
     LET a == [name |-> "RevokeRole", r |-> r, a |-> u] IN
     IF r \notin exists \/ u \notin exists
-    THEN Out(a, "error") /\ UNCHANGED <<exists, grants, edges, locked, pw, active, defrole>>
+    THEN Out(a, "error") /\ UNCHANGED stvars
     ELSE /\ Out(a, IF EdgesOf(r, u) = {} THEN "ok|error" ELSE "ok")
          /\ edges' = edges \ EdgesOf(r, u)
-         /\ UNCHANGED <<exists, grants, locked, pw, active, defrole>>
+         /\ UNCHANGED <<exists, grants, dyn, locked, pw, active, defrole>>
 
 \* SET ROLE ALL | NONE in u's session;  SET DEFAULT ROLE ALL | NONE TO u;  a new connection of u.
 SetRole(u, m) ==
     /\ u \in exists
     /\ Out([name |-> "SetRole", a |-> u, m |-> m], "ok")
     /\ active' = [active EXCEPT ![u] = m]
-    /\ UNCHANGED <<exists, grants, edges, locked, pw, defrole>>
+    /\ UNCHANGED <<exists, grants, dyn, edges, locked, pw, defrole>>
 SetDefaultRole(u, m) ==
     /\ u \in exists
     /\ Out([name |-> "SetDefaultRole", a |-> u, m |-> m], "ok")
     /\ defrole' = [defrole EXCEPT ![u] = m]
-    /\ UNCHANGED <<exists, grants, edges, locked, pw, active>>
+    /\ UNCHANGED <<exists, grants, dyn, edges, locked, pw, active>>
 Reconnect(u) ==
     /\ u \in exists
     /\ Out([name |-> "Reconnect", a |-> u], "ok")
     /\ active' = [active EXCEPT ![u] = defrole[u]]
-    /\ UNCHANGED <<exists, grants, edges, locked, pw, defrole>>
+    /\ UNCHANGED <<exists, grants, dyn, edges, locked, pw, defrole>>
 
 \* C41: persisting the privilege database and loading it into a fresh server is the identity on the
 \* access-control state (every session is a new one afterwards).
@@ -200,7 +260,9 @@ PersistReload ==
 GrantedRoles(u) == {e.r : e \in {x \in edges : x.to = u}}
 AllGrantedRolesActive(u) == GrantedRoles(u)                                   \* documented deviation
 ActiveRolesStrict(u) == IF u \in Users /\ active[u] = "none" THEN {} ELSE GrantedRoles(u)
-Eff(u, roles) == grants[u] \cup UNION {grants[r] : r \in roles}
+\* a held dynamic privilege is a global atom of the effective set (its flag only matters for GRANT)
+DynAtoms(x) == {Atom(Global, d.p) : d \in dyn[x]}
+Eff(u, roles) == grants[u] \cup DynAtoms(u) \cup UNION {grants[r] \cup DynAtoms(r) : r \in roles}
 
 \* the hierarchy global -> database -> table
 HasPriv(G, p, db, tbl) ==
@@ -224,9 +286,10 @@ SuperAllowsEverything(G) == [db |-> "*", tbl |-> "*", p |-> "SUPER"] \in G   \* 
 \*   GRANT    GRANT SELECT ON d.t TO ..         GRANT OPTION and the granted privilege, or UPDATE
 \*                                              for the mysql schema
 \*   GRANTROLE  GRANT r TO ..                   the role WITH ADMIN OPTION (or SUPER)
+\*   REPLICA  STOP REPLICA                      the dynamic REPLICATION_SLAVE_ADMIN (or SUPER)
 Need(p, db, tbl) == [p |-> p, db |-> db, tbl |-> tbl]
 StmtClasses == {"SELECT", "INSERT", "UPDATE", "DELETE", "CREATE", "DROP", "ALTER", "INDEX",
-                "CREATEUSER", "GRANT", "GRANTROLE"}
+                "CREATEUSER", "GRANT", "GRANTROLE", "REPLICA"}
 Alt(n, need) == [n |-> n, need |-> need]
 Requirement(cls, db, tbl) ==
     CASE cls \in {"SELECT", "INSERT", "UPDATE", "DELETE", "CREATE", "DROP", "ALTER", "INDEX"} ->
@@ -239,6 +302,7 @@ Requirement(cls, db, tbl) ==
                        Alt("mysql-schema", {Need("UPDATE", "mysql", "*")})},
              adminOf |-> ""]
       [] cls = "GRANTROLE" -> [alts |-> {}, adminOf |-> db]          \* db carries the role name
+      [] cls = "REPLICA" -> [alts |-> {Alt("own", {Need("REPLICATION_SLAVE_ADMIN", "*", "*")})}, adminOf |-> ""]
       [] OTHER -> [alts |-> {}, adminOf |-> ""]
 
 \* the ways a requirement is met by the privilege set G of account u ("super", the names of the
@@ -255,14 +319,14 @@ AllowedStrict(u, req) == AllowedWith(u, ActiveRolesStrict(u), req)
 ProbeDefined(cls, db) == cls = "GRANTROLE" => db \in exists
 
 \* What an allowed statement of the class changes (only its kind matters here).
-Effect(cls) == IF cls = "SELECT" THEN "none" ELSE IF cls \in {"CREATEUSER", "GRANT", "GRANTROLE"} THEN "accounts" ELSE "data"
+Effect(cls) == IF cls \in {"SELECT", "REPLICA"} THEN "none" ELSE IF cls \in {"CREATEUSER", "GRANT", "GRANTROLE"} THEN "accounts" ELSE "data"
 
 \* A statement run by u.  The state does not move (the binding undoes the effect of an allowed
 \* probe); the verdict and the effect are outputs.  "a denied statement has no effect".
 ProbeObjs(cls) ==
     CASE cls \in {"SELECT", "INSERT", "UPDATE", "DELETE", "DROP", "ALTER", "INDEX", "GRANT"} -> {<<d, t>> : d \in Dbs, t \in Tbls}
       [] cls = "CREATE" -> {<<d, "n9">> : d \in Dbs}
-      [] cls = "CREATEUSER" -> {<<"*", "*">>}
+      [] cls \in {"CREATEUSER", "REPLICA"} -> {<<"*", "*">>}
       [] OTHER -> {<<r, "">> : r \in Roles}
 Stmt(u, cls, db, tbl) ==
     LET ok == Allowed(u, Requirement(cls, db, tbl)) IN
@@ -271,7 +335,7 @@ Stmt(u, cls, db, tbl) ==
     /\ ret' = IF ok THEN "allow" ELSE "deny"
     /\ eff' = IF ok THEN Effect(cls) ELSE "none"
     /\ step' = step + 1
-    /\ UNCHANGED <<exists, grants, edges, locked, pw, active, defrole>>
+    /\ UNCHANGED stvars
 
 PrivSets(o) == {ps \in SUBSET Applicable(o) : Cardinality(ps) >= 1 /\ Cardinality(ps) <= MaxSet}
                    \cup (IF WithAll THEN {{"ALL"}} ELSE {})
@@ -284,8 +348,10 @@ RoleStep == \/ \E r \in Roles, u \in Users, adm \in BOOLEAN : GrantRole(r, u, ad
 SessStep == \/ \E u \in Users, m \in {"all", "none"} : SetRole(u, m) \/ SetDefaultRole(u, m)
             \/ \E u \in Users : Reconnect(u)
 PrivStep == \E x \in Accts, o \in Objs : \E ps \in PrivSets(o) : GrantPriv(x, o, ps) \/ RevokePriv(x, o, ps)
+DynSets == SUBSET DynPrivs \ {{}}
+DynStep == \E x \in Accts, ps \in DynSets : (\E w \in BOOLEAN : GrantDyn(x, ps, w)) \/ RevokeDyn(x, ps)
 
-MutateCore == AcctStep \/ PrivStep \/ RoleStep
+MutateCore == AcctStep \/ PrivStep \/ DynStep \/ RoleStep
 Mutate == MutateCore \/ SessStep \/ PersistReload
 Probe == \E u \in Users, cls \in StmtClasses : \E o \in ProbeObjs(cls) : Stmt(u, cls, o[1], o[2])
 
@@ -302,14 +368,20 @@ Rep(n) == 1..n
 UsefulRevoke == \E x \in Accts, o \in Objs : \E ps \in PrivSets(o) :
                     (x \in exists /\ Held(x, o, ps) # {}) /\ RevokePriv(x, o, ps)
 NoopRevoke == \E x \in Accts, o \in {Global} \cup {DbObj(d) : d \in Dbs} : \E p \in Applicable(o) : RevokePriv(x, o, {p})
+\* an account that holds one dynamic privilege gets another one with the OTHER flag value (the state
+\* in which a mix-up of names and flags shows)
+MixDyn == \E x \in Accts, p \in DynPrivs :
+              (x \in exists /\ p \notin HeldDyn(x)) /\ \E d \in dyn[x] : GrantDyn(x, {p}, ~d.wgo)
 SimCore ==
     \/ \E w \in Rep(25) : AcctStep
+    \/ \E w \in Rep(8) : DynStep
     \/ \E x \in Accts, o \in Objs : \E ps \in PrivSets(o) : GrantPriv(x, o, ps)
     \/ \E w \in Rep(12) : UsefulRevoke
     \/ NoopRevoke
     \/ \E w \in Rep(60) : RoleStep
 NextSim == SimCore \/ (\E w \in Rep(12) : SessStep)                 \* C39: with SET ROLE steps
 NextSimReload == SimCore \/ (\E w \in Rep(60) : PersistReload)       \* C41: with Persist/Reload steps
+                         \/ (\E w \in Rep(400) : MixDyn)
 \* account-name exactness (vocabulary with the same user name at two hosts, e.g. "u1" = u1@localhost and
 \* "u1@%"): statements naming an account act on exactly that account or fail
 NextSimExact == (\E w \in Rep(4) : AcctStep)
@@ -317,10 +389,11 @@ NextSimExact == (\E w \in Rep(4) : AcctStep)
                 \/ (\E w \in Rep(3) : UsefulRevoke) \/ NoopRevoke
                 \/ (\E w \in Rep(4) : RoleStep)
 NextSimAll == SimCore \/ (\E w \in Rep(12) : SessStep) \/ (\E w \in Rep(60) : PersistReload)
+                      \/ (\E w \in Rep(100) : MixDyn)
 
 Spec == Init /\ [][Next]_vars
 
-View == <<exists, grants, edges, locked, pw, active, defrole>>
+View == stvars
 Bound == step < MaxStep          \* CONSTRAINT: histories of at most MaxStep steps
 
 \* ---- properties TLC checks on the bounded model --------------------------------------------------
@@ -328,15 +401,23 @@ TypeOK ==
     /\ exists \subseteq Accts
     /\ \A a \in Accts : \A x \in grants[a] : x.p \in LevelPrivs([db |-> x.db, tbl |-> x.tbl])
     /\ \A e \in edges : e.r \in Roles /\ e.to \in Users /\ e.adm \in BOOLEAN
+    /\ \A a \in Accts : \A d \in dyn[a] : d.p \in DynPrivs /\ d.wgo \in BOOLEAN
+    /\ \A a \in Accts : \A d, e \in dyn[a] : d.p = e.p => d = e           \* one flag per held privilege
     /\ \A u \in Users : active[u] \in {"all", "none"} /\ defrole[u] \in {"all", "none"}
 \* nothing is held by, and no edge touches, an account that does not exist
 NoOrphans ==
-    /\ \A a \in Accts \ exists : grants[a] = {}
+    /\ \A a \in Accts \ exists : grants[a] = {} /\ dyn[a] = {}
     /\ \A e \in edges : e.r \in exists /\ e.to \in exists
 \* revoke is the inverse of grant on the abstract state
 RevokeInvertsGrant ==
     \A x \in exists, o \in Objs : \A ps \in PrivSets(o) :
         Held(x, o, ps) = {} => RevokeF(GrantF(grants, x, o, ps), x, o, ps) = grants
+DynRevokeInvertsGrant ==
+    \A x \in exists, ps \in DynSets, w \in BOOLEAN :
+        HeldDyn(x) \cap ps = {} => DynRevokeF(DynGrantF(dyn[x], ps, w), ps) = dyn[x]
+\* a dynamic privilege held WITH GRANT OPTION comes with the global GRANT OPTION (within the generated domain)
+DynGrantOptionIsGlobal ==
+    \A x \in Accts : (\E d \in dyn[x] : d.wgo) => Atom(Global, "GRANT OPTION") \in grants[x]
 \* the hierarchy is monotone: what is allowed for a table through the table-level set stays allowed
 \* when the same privilege is (also) held for the database or globally
 HierarchyMonotone ==
@@ -352,10 +433,10 @@ DeniedNoEffect == [][(act'.name = "Stmt" /\ ret' = "deny") => (eff' = "none" /\ 
 \* C41: Persist/Reload leaves the access-control state unchanged
 ReloadIdentity == [][act'.name = "PersistReload" => UNCHANGED acvars]_vars
 \* an account that was dropped keeps nothing when it is created again
-DropForgets == [][(act'.name = "DropAcct" /\ ret' = "ok") => (grants'[act'.a] = {} /\ \A e \in edges' : e.r # act'.a /\ e.to # act'.a)]_vars
+DropForgets == [][(act'.name = "DropAcct" /\ ret' = "ok") => (grants'[act'.a] = {} /\ dyn'[act'.a] = {} /\ \A e \in edges' : e.r # act'.a /\ e.to # act'.a)]_vars
 
 \* ---- transition dump / behaviour dump (binding A) --------------------------------------------------
-StJson(s) == [accts |-> {[a |-> a, locked |-> s.locked[a], pw |-> s.pw[a], g |-> s.grants[a]] : a \in s.exists},
+StJson(s) == [accts |-> {[a |-> a, locked |-> s.locked[a], pw |-> s.pw[a], g |-> s.grants[a], d |-> s.dyn[a]] : a \in s.exists},
               edges |-> s.edges, active |-> s.active, defrole |-> s.defrole]
 Emit == PrintT("TR " \o ToJson([step |-> step', act |-> act', ret |-> ret', pre |-> StJson(StateRec)]))
 =============================================================================
